@@ -2,7 +2,7 @@
 from ..events import (all_events, is_app_id, is_own_mailbox_id, construct_of,
                       handler_paths, handler_for, frame_type, flat_events)
 from ..report import render_path
-from ..terms import show, plain, is_const, strip_wrappers
+from ..terms import show, plain, is_const, strip_wrappers, mentions
 from .. import e3 as e3mod
 from .. import scope as scopemod
 from .. import guards
@@ -194,6 +194,7 @@ def run(ctx):
     for p in handler_paths(model, h_rel):
         upd = None
         sel_after = {}
+        sel_any = {}
         seen_loops = []
         for e, loops in all_events(p):
             if e["k"] == "loop" and not loops:
@@ -205,13 +206,23 @@ def run(ctx):
                 upd = e
             if st.table == "nameplate_sides" and st.kind == "select" and upd is not None:
                 sel_after[("rows", e["site"])] = e
+            if st.table == "nameplate_sides" and st.kind == "select":
+                sel_any[("rows", e["site"])] = e
             if st.table == "nameplates" and st.kind == "delete":
                 ng += 1
                 cons = construct_of(e) + " [guard]"
                 if upd is None:
-                    ctx.ob("R07.guard", cons, False, e, "nameplate deleted without first "
-                           "clearing this side's claim")
-                    continue
+                    # a repeated release: this side's flag is known to be clear
+                    # already (a test of its rows' `claimed` was decided false)
+                    own_clear = any(
+                        v is False and mentions(t, lambda x: x == ("const", "claimed"))
+                        for (t, v, _s) in e["pc"])
+                    if own_clear and sel_any:
+                        sel_after = dict(sel_any)
+                    else:
+                        ctx.ob("R07.guard", cons, False, e, "nameplate deleted without first "
+                               "clearing this side's claim")
+                        continue
                 verdict = None
                 for rows, sel in sel_after.items():
                     eq = sel["binds"]["where_eq"]
